@@ -279,12 +279,11 @@ func runC11(c *Ctx) {
 	// lane i gets nonce base+i at the digest offset; CopyState after Absorb of exactly 243 trits
 	var encNonce *ssa.Function
 	fill := false
-	for _, ci := range ana.Calls(search) {
-		cal := ana.StaticRepoCallee(ci.Common())
-		if cal == nil || cal == lane {
+	for _, t := range deepCallTerms(c, sb) { // the lane loop may sit in the search routine or in a helper it calls per batch
+		cal := calleeOf(t)
+		if cal == nil || cal == lane || cal.Blocks == nil || !ana.InRepo(cal) {
 			continue
 		}
-		t := sb.CallTermAt(ci)
 		if _, ok := ana.Match("call<*>(slice(load(iaddr(_, bin<+>(ind<+1>(-1), 1))), call<github.com/iotaledger/iota.go/encoding/b1t6.EncodedLen>(len(p1)), none), bin<+>(ind<+"+WS+">(p2), conv<uint64>(bin<+>(ind<+1>(-1), 1))))", t); ok {
 			fill = true
 			encNonce = cal
